@@ -53,6 +53,9 @@ def check(ctx: Ctx) -> None:
                        f"{a} {op} {b} = {tab[(a, b)]}: NEUTRAL must result exactly from two NEUTRAL operands",
                        file="src/ahbicht/models/condition_nodes.py")
     report_sweep(ctx, ("C06.tree",), FILE)
+    from .. import ahbsweep
+
+    ahbsweep.report(ctx, ("C06.noshort",), "src/ahbicht/expressions/ahb_expression_evaluation.py")
     # the validity check itself
     bound = 1 if ctx.tier == "quick" else 2
     trees = enumerate_trees(bound, LEAVES_QUICK)
